@@ -145,6 +145,9 @@ func newRootCtx(tContext *types.Context, srcs *sources.Sources, minify bool) *fu
 	for name := range reservedKeywords {
 		funcCtx.allVars[name] = 1
 	}
+	for _, name := range reservedGlobals {
+		funcCtx.allVars[name] = 1
+	}
 	return funcCtx
 }
 
